@@ -9,12 +9,13 @@
 //!   obs: `<res>* ; <written hex> <flushes> <shutdowns>`    res: b<hex> | n<k> | ok | P | E
 //! `st pipe <kind> <cap> ; <pop>*`   pop: [ab](r<cap> | w<hex> | f | s)
 //!     kind 0 DuplexStream, 1 Braid, 2 client Stream / server Stream, 3 kind 2 + double TokioIo bridge on A,
-//!     4 unix socketpair in Braid, 5 tcp loopback in Braid (kinds 4,5: kernel buffers, `cap` is ignored)
-//!   obs: `<res>*`
+//!     4 unix socketpair in Braid, 5 tcp loopback in Braid (kinds 4,5: kernel buffers, `cap` is ignored; `x` = that side is dropped)
+//!   obs: `<res>*`, for kinds 4 and 5 followed by `; ref <res>*`: the same operations on a pair of the bare tokio sockets
 //! `st prog <kind> <cap> ; <transfer>* ; <close a|b|ab|->`     two tasks, one per side, each running its part of the transfers in order
 //!     transfer: `<a|b><len>.<write chunk>.<read buffer>.<flush after every write 0|1>`: that side writes `len` pattern bytes
 //!     (`write` until all are taken, `flush` at the end - and after every chunk with the flag), the other side reads until it has them;
-//!     close: the named sides shut down at the end and the other side reads to the end of the stream
+//!     close: the named sides shut down at the end (upper case: go away without shutting down) and the other side reads to the
+//!     end of the stream
 //!     kinds 0-5 as for `pipe`; 6 = TLS over a DuplexStream(cap): client `Stream::tls` (handshake driven lazily by the first
 //!     operation) and the server `Stream` from the TLS acceptor; 7 = the same with both handshakes finished first
 //!   obs: per transfer `ok | short<got> | bad<offset> | E | stuck`, then `eof=<ok|extra<n>|E|stuck|->` per closing side
@@ -227,33 +228,62 @@ async fn run_pipe(kind: usize, cap: usize, ops: &[&str]) -> String {
              BoxIo(Box::pin(Braid::from(hyperdriver::stream::TcpStream::server(s, peer)))))
         }
     };
-    let (mut a, mut b) = (a, b);
     let kernel = kind >= 4;
-    // reference counters used only to decide how long to wait for kernel sockets to deliver
-    let mut inflight = [0isize; 2]; // [a->b, b->a]
-    let mut closed = [false; 2];
-    let mut out = Vec::new();
-    for op in ops {
-        let side_a = op.starts_with('a');
-        let body = &op[1..];
-        let io = if side_a { &mut a } else { &mut b };
-        let dir_out = if side_a { 0 } else { 1 };
-        let dir_in = 1 - dir_out;
-        let mut r = do_op(io, body);
-        // kernel sockets: readiness is only learnt from the reactor, so give it a chance to run; a
-        // write must make progress (the buffers are far larger than what is written), a read must
-        // once bytes are in flight or the peer has shut down
-        if kernel && r == "P" && ((body.starts_with('r') && (inflight[dir_in] > 0 || closed[dir_in])) || body.starts_with('w') || body == "f") {
-            for _ in 0..400 {
-                tokio::time::sleep(std::time::Duration::from_millis(1)).await;
-                r = do_op(io, body);
-                if r != "P" { break; }
-            }
+    // kernel sockets: the same operations are also applied to a pair of the bare tokio sockets - what the wrapper reports must be
+    // what the socket it wraps reports (the operating system decides what that is: a reset after the peer went away with data
+    // unread, say)
+    let reference: Option<(BoxIo, BoxIo)> = match kind {
+        4 => { let (x, y) = tokio::net::UnixStream::pair().unwrap(); Some((BoxIo(Box::pin(x)), BoxIo(Box::pin(y)))) }
+        5 => {
+            let l = tokio::net::TcpListener::bind("127.0.0.1:0").await.unwrap();
+            let addr = l.local_addr().unwrap();
+            let (c, s) = tokio::join!(tokio::net::TcpStream::connect(addr), l.accept());
+            Some((BoxIo(Box::pin(c.unwrap())), BoxIo(Box::pin(s.unwrap().0))))
         }
-        if body.starts_with('w') { if let Some(n) = r.strip_prefix('n') { inflight[dir_out] += n.parse::<isize>().unwrap_or(0); } }
-        if body.starts_with('r') { if let Some(h) = r.strip_prefix('b') { inflight[dir_in] -= (if h == "-" { 0 } else { h.len() / 2 }) as isize; } }
-        if body == "s" && r == "ok" { closed[dir_out] = true; }
-        out.push(r);
+        _ => None,
+    };
+    async fn play(a: BoxIo, b: BoxIo, kernel: bool, ops: &[&str]) -> Vec<String> {
+        let (mut a, mut b) = (Some(a), Some(b));
+        // reference counters used only to decide how long to wait for kernel sockets to deliver
+        let mut inflight = [0isize; 2]; // [a->b, b->a]
+        let mut closed = [false; 2];
+        let mut out = Vec::new();
+        for op in ops {
+            let side_a = op.starts_with('a');
+            let body = &op[1..];
+            let dir_out = if side_a { 0 } else { 1 };
+            let dir_in = 1 - dir_out;
+            if body == "x" {
+                // this side goes away altogether, whatever it has not read yet
+                let gone = if side_a { a.take() } else { b.take() };
+                out.push(if gone.is_some() { "ok".to_string() } else { "N".to_string() });
+                closed[dir_out] = true;
+                continue;
+            }
+            let Some(io) = (if side_a { a.as_mut() } else { b.as_mut() }) else { out.push("N".to_string()); continue };
+            let mut r = do_op(io, body);
+            // kernel sockets: readiness is only learnt from the reactor, so give it a chance to run; a
+            // write must make progress (the buffers are far larger than what is written), a read must
+            // once bytes are in flight or the peer has shut down
+            if kernel && r == "P" && ((body.starts_with('r') && (inflight[dir_in] > 0 || closed[dir_in])) || body.starts_with('w') || body == "f") {
+                for _ in 0..400 {
+                    tokio::time::sleep(std::time::Duration::from_millis(1)).await;
+                    r = do_op(io, body);
+                    if r != "P" { break; }
+                }
+            }
+            if body.starts_with('w') { if let Some(n) = r.strip_prefix('n') { inflight[dir_out] += n.parse::<isize>().unwrap_or(0); } }
+            if body.starts_with('r') { if let Some(h) = r.strip_prefix('b') { inflight[dir_in] -= (if h == "-" { 0 } else { h.len() / 2 }) as isize; } }
+            if body == "s" && r == "ok" { closed[dir_out] = true; }
+            out.push(r);
+        }
+        out
+    }
+    let mut out = play(a, b, kernel, ops).await;
+    if let Some((x, y)) = reference {
+        out.push(";".to_string());
+        out.push("ref".to_string());
+        out.extend(play(x, y, kernel, ops).await);
     }
     out.join(" ")
 }
@@ -343,12 +373,17 @@ async fn run_prog(kind: usize, cap: usize, transfers: Vec<Transfer>, close: &str
                 let mut extra = 0;
                 loop { match io.read(&mut buf).await { Err(_) => break "E".to_string(), Ok(0) => break if extra == 0 { "ok".to_string() } else { format!("extra{extra}") }, Ok(k) => extra += k } }
             }
+            // (an upper-case letter in `close`: that side does not shut down but simply goes away - over TLS the session is then
+            // not closed, the transport just ends, and the peer must be told so: an error, not the end of the stream)
+            let (me_cut, other_ends) = (close.contains(me.to_ascii_uppercase()), close.contains(other) || close.contains(other.to_ascii_uppercase()));
             if is_a {
                 if close.contains(me) && io.shutdown().await.is_err() { return; }
-                if close.contains(other) { let v = read_end(&mut io).await; eofs.lock().unwrap()[1] = Some(v); }
+                if me_cut { drop(io); tokio::time::sleep(std::time::Duration::from_secs(3600)).await; return; }
+                if other_ends { let v = read_end(&mut io).await; eofs.lock().unwrap()[1] = Some(v); }
             } else {
-                if close.contains(other) { let v = read_end(&mut io).await; eofs.lock().unwrap()[0] = Some(v); }
+                if other_ends { let v = read_end(&mut io).await; eofs.lock().unwrap()[0] = Some(v); }
                 if close.contains(me) && io.shutdown().await.is_err() { return; }
+                if me_cut { drop(io); tokio::time::sleep(std::time::Duration::from_secs(3600)).await; return; }
             }
             // keep the stream alive until the peer is done with it
             tokio::time::sleep(std::time::Duration::from_secs(3600)).await;
@@ -358,14 +393,15 @@ async fn run_prog(kind: usize, cap: usize, transfers: Vec<Transfer>, close: &str
     // done when every verdict is in; a deadlock shows as the time limit (virtual time for the in-memory kinds: instantly)
     let limit = tokio::time::Instant::now() + std::time::Duration::from_secs(20);
     loop {
-        let done = results.lock().unwrap().iter().all(|r| r.is_some()) && { let e = eofs.lock().unwrap(); (!close.contains('a') || e[0].is_some()) && (!close.contains('b') || e[1].is_some()) };
+        let lc = close.to_ascii_lowercase();
+        let done = results.lock().unwrap().iter().all(|r| r.is_some()) && { let e = eofs.lock().unwrap(); (!lc.contains('a') || e[0].is_some()) && (!lc.contains('b') || e[1].is_some()) };
         if done || tokio::time::Instant::now() >= limit || (ta.is_finished() && tb.is_finished()) { break; }
         tokio::time::sleep(std::time::Duration::from_millis(5)).await;
     }
     ta.abort(); tb.abort();
     let rs: Vec<String> = results.lock().unwrap().iter().map(|r| r.clone().unwrap_or("stuck".into())).collect();
     let e = eofs.lock().unwrap();
-    let ev = |c: char, i: usize| if close.contains(c) { e[i].clone().unwrap_or("stuck".into()) } else { "-".into() };
+    let ev = |c: char, i: usize| if close.to_ascii_lowercase().contains(c) { e[i].clone().unwrap_or("stuck".into()) } else { "-".into() };
     format!("{} ; eof={} eof={}", rs.join(" "), ev('a', 0), ev('b', 1))
 }
 
@@ -419,7 +455,8 @@ fn gen_prog(r: &mut Rng, i: u64) -> String {
         let rbuf = if len > 2000 { *r.pick(&[64u64, 512, 4096, 100000]) } else { *r.pick(&[1u64, 5, 64, 4096]) };
         ts.push(format!("{side}{len}.{wchunk}.{rbuf}.{}", r.chance(1, 4) as u8));
     }
-    let close = *r.pick(&["-", "a", "b", "ab", "ab"]);
+    // (upper case: that side goes away without shutting down)
+    let close = *r.pick(&["-", "a", "b", "ab", "ab", "A", "B", "aB"]);
     format!("prog {kind} {cap} ; {} ; {close}", ts.join(" "))
 }
 
@@ -439,6 +476,8 @@ pub fn gen(r: &mut Rng, i: u64) -> String {
                 4..=7 => format!("{side}r{}", r.pick(&[1u64, 2, 3, 5, 8, 32])),
                 8 => format!("{side}f"),
                 9 if !shut[sidx] && kind < 4 => { shut[sidx] = true; format!("{side}s") }
+                // kernel sockets: one side goes away altogether, possibly with data it has not read
+                9 if kind >= 4 && r.chance(1, 2) => format!("{side}x"),
                 _ => format!("{side}r{}", r.pick(&[1u64, 4, 16])),
             };
             ops.push(op);
